@@ -74,6 +74,14 @@ def build_variants(ctx, variants):
     with mp.Pool(min(len(variants), 4), maxtasksperchild=1) as pool:
         for variant, path, out, secs in pool.imap_unordered(_build_child, [(ctx.repo, v) for v in variants]):
             if not path:
+                pr = common.pristine_copy(ctx.repo)
+                if pr is not None:
+                    v2, p2, o2, _ = _build_child((pr, variant))
+                    if p2:
+                        ctx.oblige("corr:harness-layout-builds-against-working-tree", False, "build error")
+                        ctx.defer_nfi("the layout harness (variant %s) no longer builds against the working tree of %s although it builds "
+                                      "against its HEAD: a public item the property talks about was removed or changed.\n%s" % (variant, ctx.repo, out[-2500:]))
+                        raise common.HarnessBuildChanged()
                 raise RuntimeError("harness build failed (bin layout, variant %s):\n%s" % (variant, out))
             res[variant] = path
             ctx.notes.append("built layout[%s] in %.1fs" % (variant, secs))
